@@ -12,7 +12,13 @@ non-increasing -- values, STOP_SENDING, peer-opened streams).  Two independent j
 * model correspondence: coq/model/FlowSend.v is fed the same application calls, the same received
   frames and, for every _write_stream_frame call the subject made, its size budget; it must predict
   max_offset, every emitted frame (stream, offset, bytes, fin), RESET_STREAM final sizes and, at every
-  quiescent point, `_remote_max_data_used`, the limits and every stream's highest_offset.
+  quiescent point, `_remote_max_data_used`, the limits and every stream's highest_offset; the credit counter is
+  also compared BEFORE every _write_stream_frame call (between any two frames of one transmit).
+
+Scenario steps: send / reset / stop (application), pump (datagrams_to_send), max_data / max_stream_data / max_streams /
+stop_sending / peer_open / ack <selector> (puppet, one packet each), bundle [..] (several of them in ONE packet),
+advance <ms>, hold 1|0 (while held the subject receives and its timer fires but nothing is transmitted until an
+explicit pump: the application can write between a loss declaration and the retransmission).
 """
 import collections
 import json
@@ -31,6 +37,8 @@ TRUSTED_BASE = [
     "the subject's qlog frame lists in processing order)",
     "LABELLED PEEKS (correspondence only, never the oracle): QuicConnection._remote_max_data_used, _remote_max_data, "
     "_remote_max_streams_*, _streams_blocked_*, _streams[sid].{is_blocked,max_stream_data_remote,sender.*}",
+    "the scenario driver gates Pair.pump while a `hold` window is open (receive_datagram / handle_timer run, "
+    "datagrams_to_send is deferred to the next explicit pump step) and sends several puppet frames in one packet (`bundle`)",
     "modelled, not verified: connection.py send-side flow control as Gallina functions; packet building, pacing, "
     "congestion control and the order in which streams are served are inputs of the model (per-call budgets, stream "
     "picked), not part of it",
@@ -169,6 +177,10 @@ def run_scenario(case, fair=True):
     def w_get_frame(self, max_size, max_offset=None):
         if R.depth and self._stream_id is not None:
             sync()
+            conn = holder.get("conn")
+            if conn is not None:
+                # PEEK: the credit counter between any two _write_stream_frame calls of one transmit
+                R.op("credit", [17], [conn._remote_max_data_used, conn._remote_max_data])
             r = saved[0](self, max_size, max_offset)
             R.op("get", [8, self._stream_id, max_size], [2, -1 if max_offset is None else max_offset] + _frame_tokens(r))
             return r
@@ -322,17 +334,32 @@ def run_scenario(case, fair=True):
 
         puppet = None
         acked = set()
+        base_pn = [-1]
+        # "hold": the subject receives datagrams / its timer fires, but datagrams_to_send is NOT called until the
+        # next explicit ["pump"] step (sans-IO users, a busy event loop, pacing): this is what lets the application
+        # write between a loss declaration and the retransmission.  Pair.step/_deliver_to call self.pump.
+        real_pump = pair.pump
+        hold = [False]
+
+        def gated_pump(ep, _after_timer=False):
+            if hold[0] and ep is client:
+                return 0
+            return real_pump(ep, _after_timer)
+        pair.pump = gated_pump
 
         def subject_pns():
             return sorted({p.pn for p in pair.observer.packets
                            if p.direction == "c2s" and p.decrypted and not p.injected and p.type in ("0rtt", "1rtt")})
 
-        def do_ack(sel):
+        def ack_frames(sel):
             un = [n for n in subject_pns() if n not in acked]
+            fresh = [n for n in un if n > base_pn[0]]     # packets sent since the puppet took over
             pick = {"all": un, "even": un[::2], "odd": un[1::2], "last": un[-1:], "first": un[:1],
-                    "but_first": un[1:], "but_last": un[:-1]}[sel]
+                    "but_first": un[1:], "but_last": un[:-1], "last_two": un[-2:],
+                    "f_but_first": fresh[1:], "f_but_two": fresh[2:], "f_odd": fresh[1::2], "f_even": fresh[::2],
+                    "f_but_second": fresh[:1] + fresh[2:], "f_last": fresh[-1:]}[sel]
             if not pick:
-                return
+                return []
             acked.update(pick)
             ranges, lo, hi = [], pick[0], pick[0]
             for n in pick[1:]:
@@ -342,27 +369,51 @@ def run_scenario(case, fair=True):
                     ranges.append((lo, hi))
                     lo = hi = n
             ranges.append((lo, hi))
-            puppet.send_frames("1rtt", [sim.F.ack(ranges[-50:], 0)])
+            return [sim.F.ack(ranges[-50:], 0)]
 
-        def peer(step):
+        def do_ack(sel):
+            fr = ack_frames(sel)
+            if fr:
+                puppet.send_frames("1rtt", fr)
+
+        def peer_frames(step):
             k = step[0]
             F = sim.F
             if k == "max_data":
-                puppet.send_frames("1rtt", [F.max_data(step[1])])
-            elif k == "max_stream_data":
-                puppet.send_frames("1rtt", [F.max_stream_data(step[1], step[2])])
-            elif k == "max_streams":
-                puppet.send_frames("1rtt", [F.max_streams(step[2], uni=bool(step[1]))])
-            elif k == "stop_sending":
+                return [F.max_data(step[1])]
+            if k == "max_stream_data":
+                return [F.max_stream_data(step[1], step[2])]
+            if k == "max_streams":
+                return [F.max_streams(step[2], uni=bool(step[1]))]
+            if k == "stop_sending":
                 killed.add(step[1])
-                puppet.send_frames("1rtt", [F.stop_sending(step[1], 9)])
-            elif k == "peer_open":
-                puppet.send_frames("1rtt", [F.stream(step[1], 0, b"p")])
-            elif k == "ack":
-                do_ack(step[1])
-            elif k == "advance":
+                return [F.stop_sending(step[1], 9)]
+            if k == "peer_open":
+                return [F.stream(step[1], 0, b"p")]
+            if k == "ack":
+                return ack_frames(step[1])
+            return []
+
+        def peer(step):
+            k = step[0]
+            if k == "advance":
                 pair.advance(step[1] / 1000.0)
-            if check_closed() is not None and R.last_frame_op is not None and k not in ("ack", "advance"):
+            elif k == "hold":
+                hold[0] = bool(step[1])
+            elif k == "bundle":
+                # several peer frames in ONE packet (e.g. the ACK that declares a loss together with the MAX_DATA
+                # that opens the window: the retransmission is cut with fresh credit, and an ACK frame of the
+                # subject's own shifts every frame boundary)
+                fr = []
+                for sub in step[1]:
+                    fr += peer_frames(sub)
+                if fr:
+                    puppet.send_frames("1rtt", fr)
+            else:
+                fr = peer_frames(step)
+                if fr:
+                    puppet.send_frames("1rtt", fr)
+            if check_closed() is not None and R.last_frame_op is not None and k not in ("ack", "advance", "hold"):
                 R.chunks[R.last_frame_op][1] = [4, R.closed]
 
         # ---- before / during the handshake
@@ -393,15 +444,30 @@ def run_scenario(case, fair=True):
         if handshake_ok:
             puppet = sim.Puppet(pair, as_side="server")
             puppet.isolate_real()
+            base_pn[0] = max(subject_pns() or [-1])
             for step in case.get("steps", []):
                 if R.closed is not None:
                     break
                 if step[0] in ("send", "reset", "stop"):
                     app(step)
                 elif step[0] == "pump":
-                    pair.pump(client)
+                    was_closed = R.closed
+                    real_pump(client)
+                    if hold[0] and was_closed is None and check_closed() is not None and R.last_frame_op is not None:
+                        R.chunks[R.last_frame_op][1] = [4, R.closed]   # the frame handler's error, sent only now
                 else:
                     peer(step)
+                observe()
+            hold[0] = False
+            # ---- settle: under the scenario's OWN final limits let everything the subject is allowed to send leave
+            # (pacing delays, PTO): credit that was leaked earlier is spent here, before the limits become ample
+            if fair and R.closed is None:
+                for _ in range(3):
+                    real_pump(client)
+                    do_ack("all")
+                    pair.advance(0.06)
+                    if check_closed() is not None:
+                        break
                 observe()
             # ---- fair phase: ample limits, everything acknowledged, time passes
             if fair and R.closed is None:
@@ -452,10 +518,18 @@ def _params_tokens(d):
 
 # ------------------------------------------------------------------------------------------------
 # implementation oracle: the property statement over the decrypted wire only
-def wire_oracle(w):
+def wire_oracle(w, stats=None):
     """The property statement over the decrypted wire.  Returns every violation found, in wire order, as
-    (what, signature) pairs; [] if the run conforms."""
+    (what, signature) pairs; [] if the run conforms.  Every STREAM / RESET_STREAM frame is judged when it leaves
+    (running ledger of the highest end offset per stream against the limits delivered so far), and once more
+    after EVERY datagram the whole ledger is judged: sum over streams <= MAX_DATA in force, each stream <= its
+    limit in force.  `stats` (a Counter) receives measured coverage: datagrams / frames judged, frames that
+    straddle the previous highest offset, scenarios where such a frame is followed by the connection limit
+    being reached exactly."""
     bad = []
+    stats = stats if stats is not None else collections.Counter()
+    straddled = False
+    bound_after_straddle = False
     H = w["peer"]
     Rm = w["remembered"]
     lowered = bool(Rm) and any(h < r for h, r in zip(H, Rm))
@@ -514,6 +588,13 @@ def wire_oracle(w):
                     opened.add(sid)
                     off, ln = f.fields["offset"], f.fields["length"]
                     end = off + ln
+                    stats["stream_frames_judged"] += 1
+                    prev = (highest_early if early else highest)[sid]
+                    if off < prev < end:
+                        stats["frames_straddling_previous_highest"] += 1
+                        straddled = True
+                    elif end <= prev and ln:
+                        stats["frames_entirely_below_highest"] += 1
                     if bytes(f.fields["data"]) != data_for(sid, off, ln):
                         bad.append(("STREAM frame of stream %d [%d,%d) does not carry the written bytes" % (sid, off, end),
                                     dict(sig0, rule="bytes")))
@@ -539,6 +620,26 @@ def wire_oracle(w):
                 if total > cl:
                     bad.append(("sum of highest offsets %d exceeds the connection limit %d in force (stream %d, %s)" % (total, cl, sid, f.name),
                                 dict(sig0, rule="connection_data_limit")))
+                if straddled and total == cl:
+                    bound_after_straddle = True
+        # ---- after EVERY datagram: the whole 1-RTT ledger against the limits in force
+        pk = [p for p in w["by_datagram"].get(idx, []) if p.decrypted and p.type == "1rtt"]
+        if pk:
+            stats["datagrams_judged"] += 1
+            sigd = {"frame": "(datagram)", "zero_rtt_packet": False, "after_zero_rtt_lowered": lowered}
+            total = sum(highest.values())
+            if total > max_data:
+                bad.append(("after datagram %d the sum of highest offsets is %d, above the connection limit %d in force" % (idx, total, max_data),
+                            dict(sigd, rule="connection_data_limit")))
+            for sid, h in sorted(highest.items()):
+                lim = max(initial_for(sid, H), msd.get(sid, 0))
+                if h > lim:
+                    bad.append(("after datagram %d stream %d has sent up to %d, above its limit %d in force" % (idx, sid, h, lim),
+                                dict(sigd, rule="stream_data_limit")))
+    if straddled:
+        stats["scenarios_with_straddling_frame"] += 1
+    if bound_after_straddle:
+        stats["scenarios_straddle_then_connection_limit_reached"] += 1
     if w["undecrypted"]:
         bad.append(("observer could not decrypt %d subject packets" % w["undecrypted"], {"rule": "observer"}))
     if w["progress"]:
@@ -585,11 +686,18 @@ def fs_impl(case):
     return _result(case)["tout"]
 
 
+ORACLE_STATS = collections.Counter()   # measured over the scenarios of run() (each scenario counted once)
+
+
 def all_violations(case):
     r = _result(case)
     if r.get("wire") is None:
         return [("scenario driver failed: %s" % r.get("error"), {"rule": "driver"})]
-    return wire_oracle(r["wire"])
+    if "oracle" not in r:
+        st = collections.Counter()
+        r["oracle"] = wire_oracle(r["wire"], st)
+        r["oracle_stats"] = st
+    return r["oracle"]
 
 
 def _known_id(ctx, sig):
@@ -708,14 +816,138 @@ def gen_steps(rng, n, b, lim, peer_ok=True, sids_state=None):
         elif r < 0.77 and not st["peer"]:
             st["peer"] = True
             steps.append(["peer_open", 1])
+        elif r < 0.81:
+            # a window in which the subject receives but does not transmit: loss declaration (or a limit raise), then
+            # application writes, then the transmit; or the ACK and the raise in one packet
+            live = [x for x in sorted(st["created"]) if x not in st["done"]]
+            cur = st["md"]
+            v = max(0, rng.choice([cur, cur + 1, cur + b, cur + 2 * b + 1]))
+            sel = rng.choice(["last", "f_but_first", "f_odd", "f_even", "last_two", "f_but_second", "f_but_two", "all"])
+            if rng.random() < 0.4:
+                st["md"] = max(cur, v)
+                sub = [["ack", sel], ["max_data", v]]
+                rng.shuffle(sub)
+                steps.append(["bundle", sub])
+            else:
+                steps.append(["hold", 1])
+                steps.append(["ack", sel])
+                if rng.random() < 0.3:
+                    steps.append(["advance", rng.choice([1, 30, 400])])
+                for _k in range(rng.choice([1, 1, 2])):
+                    if live:
+                        steps.append(["send", rng.choice(live), min(rng.choice(sizes), 4000), 0])
+                if rng.random() < 0.4:
+                    st["md"] = max(cur, v)
+                    steps.append(["max_data", v])
+                steps.append(["pump"])
+                steps.append(["hold", 0])
         elif r < 0.90:
-            steps.append(["ack", rng.choice(["all", "all", "even", "odd", "last", "first", "but_first", "but_last"])])
+            steps.append(["ack", rng.choice(["all", "all", "even", "odd", "last", "first", "but_first", "but_last",
+                                             "f_but_first", "f_odd", "f_but_second"])])
         else:
             steps.append(["advance", rng.choice([1, 30, 120, 400, 1500])])
     return steps
 
 
+def gen_straddle_case(rng, i):
+    """Family: credit accounting of STREAM frames that straddle the previous highest offset.  A packet with stream
+    data is declared lost (time threshold, packet threshold, or after a PTO probe); BEFORE the retransmission is cut
+    the application writes more on the same stream and/or the peer raises a limit (hold window, or ACK + MAX_DATA
+    in one packet), so the pending range covers lost AND never-sent bytes; a small MAX_DATA is the binding limit
+    (sometimes the per-stream limit instead) and other streams compete for the credit; the retransmission is cut
+    with budgets that differ from the original ones (ACK frame in the packet, other streams served first)."""
+    B = rng.choice([40, 100, 400, 1000, 1150, 1200, 2000])
+    n1 = max(1, rng.choice([1, B // 2, B - 1, B, B + 1, 2 * B + 7]))
+    n2 = max(1, rng.choice([1, B // 2, B, 2 * B]))
+    nb = rng.choice([B, 2 * B, 3 * B, 2500])
+    A = rng.choice([0, 0, 4, 2])
+    others = [x for x in (0, 4, 8, 2, 6) if x != A]
+    Bs = rng.choice(others)
+    X = rng.choice([x for x in others if x != Bs])
+    total = n1 + n2 + nb
+    mode = rng.choice(["time", "time", "packets", "pto"])
+    xk = rng.choice([1, 1, 3])
+    xbytes = {"time": xk, "packets": 3, "pto": 0}[mode]      # what the later packets need of the connection credit
+    md = max(0, rng.choice([n1, n1 + 1, n1 + 3, n1 + n2 - 1, n1 + n2, n1 + n2 + 1, n1 + n2 + nb // 2, total - 1, total + 10])
+             + rng.choice([xbytes, xbytes, xbytes, 0]))
+    if rng.random() < 0.07:
+        md = n1 // 2
+    style = rng.random()
+    if 0.75 <= style < 0.9 and n2 > 1:
+        # no hold window: the second write on A must still be (partly) blocked by MAX_DATA when the loss is declared
+        md = n1 + xbytes + rng.choice([0, 1, n2 // 2, n2 - 1])
+    big = 10 * total + 5000
+    sl = big if rng.random() < 0.7 else max(0, rng.choice([n1, n1 + 1, n1 + n2 - 1, n1 + n2, n1 + n2 // 2]))
+    peer = [md, big, sl, sl if rng.random() < 0.5 else big, 4, 3]
+    steps = []
+    # phase 1: the data that will be lost
+    steps += [["send", A, n1, 0]]
+    if rng.random() < 0.3:
+        steps += [["send", Bs, max(1, nb // 3), 0]]
+    steps += [["pump"]]
+    # phase 2: a later packet to acknowledge
+    if mode == "time":
+        steps += [["advance", rng.choice([5, 30, 200])], ["send", X, xk, 0], ["pump"]]
+    elif mode == "packets":
+        for k in range(3):
+            steps += [["send", X, 1, 0], ["pump"], ["advance", 1]]      # (1 ms: the pacer lets the next packet out)
+    else:
+        steps += [["advance", rng.choice([400, 700, 1500])]]
+    # phase 3: loss declaration, then writes / raises BEFORE the next transmit
+    sel = rng.choice(["last", "last", "f_but_first", "f_odd", "last_two", "f_but_second", "f_but_two"])
+    d = rng.choice([0, 1, n2 - 1, n2, n2 + 1, n2 + nb // 2, total])
+    raises = []
+    if rng.random() < 0.5:
+        raises.append(["max_data", max(0, md + d)])
+    if sl != big and rng.random() < 0.7:
+        raises.append(["max_stream_data", A, sl + rng.choice([1, n2 - 1, n2, n2 + 1, total])])
+    rng.shuffle(raises)
+    writes = [["send", A, n2, int(rng.random() < 0.15)]]
+    if rng.random() < 0.8:
+        writes.append(["send", Bs, nb, 0])
+    if rng.random() < 0.3:
+        writes.append(["send", A, rng.choice([1, B]), 0] if not writes[0][3] else ["send", X, B, 0])
+    rng.shuffle(writes)
+    if writes[0][0] == "send" and any(w[1] == A and w[3] for w in writes):
+        writes.sort(key=lambda w: (w[1] == A and w[3]))       # nothing may follow a FIN on A
+    tag = mode + "/" + ("hold" if style < 0.55 else "hold-bundle" if style < 0.75 else "bundle" if style < 0.9 else "control")
+    if style < 0.55:
+        mid = [["ack", sel]] + raises[:1] + writes + raises[1:]
+        if rng.random() < 0.3:
+            mid.insert(1, ["advance", rng.choice([1, 30])])
+        steps += [["hold", 1]] + mid + [["pump"], ["hold", 0]]
+    elif style < 0.75:
+        sub = [["ack", sel]] + raises
+        rng.shuffle(sub)
+        steps += [["hold", 1], ["bundle", sub]] + writes + [["pump"], ["hold", 0]]
+    elif style < 0.9:
+        # no hold at all: the ACK that declares the loss and the raise arrive in one packet
+        if not raises:
+            raises = [["max_data", max(0, md + max(1, d))]]
+        sub = [["ack", sel]] + raises
+        rng.shuffle(sub)
+        writes.sort(key=lambda w: (w[1] != A, w[3]))            # the write on A first
+        steps += writes[:1] + [["pump"], ["bundle", sub]] + writes[1:] + [["pump"]]
+    else:
+        # control: the retransmission leaves first, the write comes afterwards
+        steps += [["ack", sel]] + writes + [["pump"]] + raises + [["pump"]]
+    # phase 4: a second round (the retransmission itself may be lost, re-cut again), then anything
+    st = {"done": {w[1] for w in writes if w[3]}, "peer": False, "md": max([md] + [r[1] for r in raises if r[0] == "max_data"]),
+          "ms": [4, 3], "msd": {}, "created": {A, Bs, X}}
+    if rng.random() < 0.5:
+        steps += [["advance", rng.choice([5, 200, 600])], ["hold", 1], ["ack", rng.choice(["last", "f_odd", "f_even", "f_but_first", "f_but_second"])]]
+        if A not in st["done"]:
+            steps += [["send", A, rng.choice([1, B, B + 1]), 0]]
+        steps += [["bundle", [["max_data", st["md"] + rng.choice([1, B, total])]]]] if rng.random() < 0.5 else []
+        st["md"] = st["md"] + total     # upper bound is enough for the generator's book-keeping
+        steps += [["pump"], ["hold", 0]]
+    steps += gen_steps(rng, rng.randint(0, 8), B, peer, sids_state=st)
+    return {"seed": i % 7, "peer": peer, "steps": steps, "family": "straddle:" + tag}
+
+
 def gen_case(rng, i):
+    if i % 3 == 2:
+        return gen_straddle_case(rng, i)
     lim, b = gen_limits(rng)
     case = {"seed": i % 7, "peer": lim}
     kind = rng.random()
@@ -797,6 +1029,53 @@ def directed_cases():
     out.append({"seed": 6, "peer": [1000, 200, 200, 200, 4, 4],
                 "zero": {"first": [500, 100, 100, 100, 2, 2], "reject": False, "early": [["send", 0, 150, 0], ["send", 2, 30, 1], ["pump"]]},
                 "steps": [["send", 0, 100, 1], ["pump"], ["ack", "even"], ["advance", 500], ["ack", "all"]]})
+    out += straddle_directed_cases()
+    return out
+
+
+def straddle_directed_cases():
+    """Loss declared, then a write on the same stream (or a raise) BEFORE the next transmit, with the connection
+    limit binding: the retransmission [0, n1) is coalesced with fresh bytes into one frame around highest_offset."""
+    out = []
+    BIGL = 100000
+    for n1, n2, nb, md in ((400, 400, 1500, 2000), (40, 40, 150, 200), (1, 1, 5, 6), (1100, 300, 1500, 2500),
+                           (400, 900, 1500, 1400)):
+        for decl in ("time", "packets"):
+            for comp in (8, 0):       # the competitor for the credit: another stream / the same stream
+                pre = [["send", 0, n1, 0], ["pump"]]
+                if decl == "time":
+                    pre += [["advance", 500], ["send", 4, 1, 0], ["pump"]]
+                    sel = "last"
+                else:
+                    pre += [["send", 4, 1, 0], ["pump"], ["advance", 1], ["send", 4, 1, 0], ["pump"], ["advance", 1],
+                            ["send", 4, 1, 0], ["pump"], ["advance", 1]]
+                    sel = "f_but_first"
+                out.append({"seed": 1, "peer": [md, BIGL, BIGL, BIGL, 4, 4], "steps": pre + [
+                    ["hold", 1], ["ack", sel], ["send", 0, n2, 0], ["send", comp, nb, 0], ["pump"], ["hold", 0],
+                    ["advance", 5], ["ack", "all"], ["max_data", md + 1], ["advance", 5], ["pump"], ["max_data", 2 * md + nb],
+                    ["advance", 5], ["pump"], ["ack", "all"]]})
+    # data blocked by MAX_DATA, first packet lost, ACK + MAX_DATA in ONE packet (no hold): the retransmission is cut
+    # with fresh credit and runs past the old highest offset; second stream competes
+    for md, up in ((400, 300), (400, 1), (1000, 700), (40, 40)):
+        for order in (0, 1):
+            sub = [["ack", "last"], ["max_data", md + up]]
+            out.append({"seed": 2, "peer": [md, BIGL, BIGL, BIGL, 4, 4], "steps": [
+                ["send", 0, 2 * md + up, 0], ["pump"], ["advance", 700],
+                ["bundle", sub[::-1] if order else sub], ["pump"], ["advance", 5], ["send", 4, md + up, 0], ["pump"], ["advance", 5],
+                ["ack", "all"], ["max_data", 2 * md + 2 * up], ["advance", 5], ["pump"],
+                ["max_data", 10 * md + 10 * up], ["advance", 5], ["pump"], ["ack", "all"]]})
+    # several packets lost and re-cut with another budget (the subject's ACK frame and stream 4 served first shift
+    # every boundary); MAX_DATA then MAX_STREAM_DATA and the reverse, held
+    for first in (0, 1):
+        raises = [["max_data", 4000], ["max_stream_data", 0, 3500]]
+        out.append({"seed": 3, "peer": [2600, BIGL, 2500, BIGL, 4, 4], "steps": [
+            ["send", 0, 4000, 0], ["pump"], ["advance", 700], ["hold", 1], ["ack", "last"], ["send", 4, 700, 0]] +
+            (raises[::-1] if first else raises) + [["pump"], ["hold", 0], ["ack", "odd"], ["advance", 300], ["ack", "last"],
+            ["max_data", 9000], ["max_stream_data", 0, 9000], ["pump"], ["ack", "all"]]})
+    # the per-stream limit binds instead (control: the connection credit is ample)
+    out.append({"seed": 4, "peer": [BIGL, BIGL, 500, BIGL, 4, 4], "steps": [
+        ["send", 0, 400, 0], ["pump"], ["advance", 500], ["send", 4, 1, 0], ["pump"], ["hold", 1], ["ack", "last"],
+        ["send", 0, 400, 0], ["pump"], ["hold", 0], ["max_stream_data", 0, 800], ["pump"], ["ack", "all"]]})
     return out
 
 
@@ -847,7 +1126,9 @@ def suite(ctx):
                 # ---- implementation oracle
                 seen = set()
                 failed = False
-                for what, sig in all_violations(c):
+                viol = all_violations(c)
+                ORACLE_STATS.update(r.get("oracle_stats") or {})
+                for what, sig in viol:
                     k = json.dumps(sig, sort_keys=True)
                     if k in seen:
                         continue
@@ -899,11 +1180,12 @@ def suite(ctx):
 
 def run(ctx):
     KNOWN_HITS.clear()
+    ORACLE_STATS.clear()
     s = suite(ctx)
     s.run(corr.load_corpus("C06", s.name), "corpus")
     s.run(directed_cases(), "directed")
     rng = ctx.rng
-    n = ctx.n(260, 3000)
+    n = ctx.n(600, 9000)
     batch = 50
     cases = [gen_case(rng, i) for i in range(n)]
     for i in range(0, n, batch):
@@ -913,9 +1195,14 @@ def run(ctx):
         "scenario = peer limits (0/1/B-1/B/B+1/2B per parameter) + application writes/resets/stop_stream around them + "
         "puppet schedule of MAX_DATA/MAX_STREAM_DATA/MAX_STREAMS (also non-increasing), STOP_SENDING, selective ACKs, time "
         "(loss, PTO, retransmission), pre-handshake writes, 0-RTT with remembered then different (higher, lower, "
-        "rejected) handshake limits, several streams competing for one packet, final fair phase; distinct = distinct "
+        "rejected) handshake limits, several streams competing for one packet; hold windows (loss declared by packet/time "
+        "threshold or after PTO probes, then writes on the same stream / limit raises BEFORE the next transmit) and ACK + "
+        "MAX_DATA / MAX_STREAM_DATA in one packet (both orders) with a small binding MAX_DATA, so that retransmissions are "
+        "re-cut with fresh data into frames straddling the previous highest offset; settle phase under the final limits, "
+        "final fair phase; distinct = distinct "
         "model op sequence, non-trivial = at least one STREAM frame call and one delivery outcome or MAX_* frame",
-        {"known_finding_scenarios": dict(KNOWN_HITS), "exhaustive_small_scope": False})
+        {"known_finding_scenarios": dict(KNOWN_HITS), "wire_oracle_measured": dict(ORACLE_STATS),
+         "exhaustive_small_scope": False})
 
 
 def replay(ctx, rep):
